@@ -72,13 +72,14 @@ def lin(x):
 class Facts:
     """solved form of linear equalities: var -> term over the remaining vars"""
 
-    def __init__(self, sub=None, nodes=None, known=None):
+    def __init__(self, sub=None, nodes=None, known=None, kids=None):
         self.sub = dict(sub or {})
         self.nodes = dict(nodes or {})      # ident of an ExprRef -> (variant, {field: value})
         self.known = dict(known or {})      # ident -> variant name once a pattern on it matched
+        self.kids = dict(kids or {})        # ident -> [child values] once the children slice was destructured before the variant was known
 
     def copy(self):
-        return Facts(self.sub, self.nodes, self.known)
+        return Facts(self.sub, self.nodes, self.known, self.kids)
 
     def norm(self, t):
         t = lin(t)
@@ -347,6 +348,17 @@ class Evaluator:
                     if len(kids) != len(els):
                         return []
                     return self._match_seq(list(zip(els, kids)), env, F)
+                if val.e.ident is not None:
+                    # the variant is not known yet: name the children now, the variant pattern that follows ties them to its operand fields
+                    F = F.copy()
+                    if val.e.ident in F.kids:
+                        kids = F.kids[val.e.ident]
+                        if len(kids) != len(els):
+                            return []
+                    else:
+                        kids = [E(Lin.var("w(%s.child%d)" % (val.e.ident, i)), "%s.child%d" % (val.e.ident, i)) for i in range(len(els))]
+                        F.kids[val.e.ident] = kids
+                    return [("maybe", e2, f2) for _, e2, f2 in self._match_seq(list(zip(els, kids)), env, F)]
             return self._bind_opaque(pat, env, F)
         if k == "plit":
             if isinstance(val, I) and isinstance(pat.get("v"), int) and not isinstance(pat.get("v"), bool):
@@ -391,10 +403,15 @@ class Evaluator:
             fv = F.nodes[ident][1]
         else:
             fv = []
+            pre = list(F.kids.get(ident, [])) if ident is not None and ident in F.kids else None
+            if pre is not None and len(pre) != len([fd for fd in fields if fd["ty"].endswith("ExprRef")]):
+                return []                 # the children slice that was destructured earlier has another length
             for fd in fields:
                 nm = "%s.%s" % (ident or fresh("n"), fd["name"])
                 ty = fd["ty"]
-                if ty.endswith("ExprRef"):
+                if ty.endswith("ExprRef") and pre is not None:
+                    fv.append((fd["name"], pre.pop(0)))
+                elif ty.endswith("ExprRef"):
                     fv.append((fd["name"], E(Lin.var("w(%s)" % nm), nm)))
                 elif ty in ("u32", "u64", "usize"):
                     fv.append((fd["name"], I(Lin.var(nm))))
@@ -589,7 +606,11 @@ class Evaluator:
         return [("v", Clo(n, env), env, F)]
 
     def ev_blockexpr(self, n, env, F, depth):
-        return self.ev_block(n["b"], env, F, depth)
+        outs = self.ev_block(n["b"], env, F, depth)
+        if "inl_id" in n:
+            tag = ("iret", n["inl_id"])
+            outs = [(("v" if kind == tag else kind), v, e1, f1) for kind, v, e1, f1 in outs]
+        return outs
 
     def ev_block(self, b, env, F, depth):
         def go(i, env, F):
@@ -637,8 +658,11 @@ class Evaluator:
         return self.then(self.ev(n["e"], env, F, depth), lambda v, e1, f1: [("ret", v, e1, f1)])
 
     def ev_ireturn(self, n, env, F, depth):
-        self.note(n, "exit of an inlined helper")
-        return self.ev_return(n, env, F, depth)
+        # the exit of an inlined helper leaves that helper's block only
+        tag = ("iret", n.get("inl"))
+        if "e" not in n:
+            return [(tag, T([]), env, F)]
+        return self.then(self.ev(n["e"], env, F, depth), lambda v, e1, f1: [(tag, v, e1, f1)])
 
     def _div(self, n, env, F, depth):
         return [("div", None, env, F)]
